@@ -45,6 +45,7 @@ var optAlpha = map[string][]rune{
 	"expression": {'a', '1', '.', '/', '*', '\'', '"', ' ', '\n', '\r', 0x1F600},
 	"csv":        {'a', ',', '"', '\r', '\n', 0x416},
 	"mustache":   {'a', '{', '}', '#', ' ', '\n', '"', 0x1F600},
+	"generic-custom": {'a', '=', ':', '<', '!', '-', '>', ' ', '\n'},
 }
 
 var optSnippets = map[string][]string{
@@ -52,7 +53,17 @@ var optSnippets = map[string][]string{
 	"expression": {"a /* c */ b", "a  /* c */  b /* d */\n  c", "1 /*x*/ 2.5e3 'it''s' \"q\"\"r\" 😀 ", "/* c */ /* d */ x", "a\r\n+ 'b'\n\r/*\n*/ 7",
 		"😀/**/ 😀 1", " /**/ ", "x /* unterminated"},
 	"csv":      {"a,b\r\n\"c,d\",\"e\"\"f\"\n", "\"x\"\r\"y\"\n\r\"\"", "a,\"multi\nline\",b\rc"},
+	"generic-custom": {"a =:= b\n=: c", "<!-- x\n--> !>>> !>>\n!"},
 	"mustache": {"Hello, {{ Name }}!\n{{#if a}} x {{/if}}", "{{ 'q'  \"r\" }} t {{{ b }}}", "a\r\n{{ b 😀 c }}\n d", "{{a}}{{b}} {{ c  d }}"},
+}
+
+// one lexeme of every token class per tokenizer, including the skippable ones (comment, whitespace, unknown character)
+var optLexemes = map[string][]string{
+	"generic":        {"a", "1", "2.5", "'q'", "# c", " ", "\n", "\r\n", "😀", "<=", "-"},
+	"expression":     {"a", "1", "2.5e1", "'q''r'", "\"w\"", "/*c*/", "/*\n*/", " ", "\n", "😀", "<=", "NOT"},
+	"csv":            {"a", ",", "\"q\"\"r\"", "\r\n", "\n", "😀", "\"\""},
+	"mustache":       {"text", "{{", "}}", "{{{", "}}}", "a", " ", "\n", "😀", "'q'", "#"},
+	"generic-custom": {"a", "=:=", "=:", " ", "\n", "😀", "<!--", "# c"},
 }
 
 func genOpts(g *Gen, positions bool) {
@@ -75,6 +86,19 @@ func genOpts(g *Gen, positions bool) {
 					[]Ev{{"op": "tok", "kind": kind, "opts": toAnyList(optList(bits)), "input": cpsR(s)}})
 			}
 		})
+		// every sequence of up to three lexemes (a token of every class directly after every skippable token)
+		lex := optLexemes[kind]
+		for _, a := range lex {
+			for _, b := range lex {
+				for _, c := range append([]string{""}, lex...) {
+					in := a + b + c
+					for _, bits := range sets {
+						g.Run(fmt.Sprintf("lexeme sequences<=3 x %d option sets:%s", len(sets), kind),
+							[]Ev{{"op": "tok", "kind": kind, "opts": toAnyList(optList(bits)), "input": cps(in)}})
+					}
+				}
+			}
+		}
 		n := g.Pick(400, 6000)
 		r := g.Rand()
 		for i := 0; i < n; i++ {
